@@ -74,7 +74,9 @@ def custom_cases(r, tier):
         N = r.randint(2, 40 if tier == "quick" else 129)
         SR = r.choice([1, 100, 1e4, 1e9, 44100])
         K = r.randint(3, 40 if tier == "quick" else 500)
-        first = 0.0 if r.random() < 0.6 else SR * r.uniform(0.001, 0.05)
+        # the axis starts at 0, above 0, or below 0 (two-sided axes are looked up at |f| like any other)
+        k0 = r.random()
+        first = 0.0 if k0 < 0.5 else (SR * r.uniform(0.001, 0.05) if k0 < 0.75 else -SR * r.uniform(0.05, 0.6))
         last = SR / 2 if r.random() < 0.5 else SR * r.uniform(0.5, 1.2)
         inner = sorted(r.uniform(first, last) for _ in range(K - 2))
         fr = np.array([first] + inner + [last])
